@@ -281,6 +281,19 @@ Definition rgu_update (I : instance) (fs : list fname) (d : dstate) (x : sop) (u
             else g2 in
   mkrgu ch (u_ic u) (u_rm_m u) (u_rm_j u) (u_init u) g3.
 
+(** One notification round while the updater itself is NOT subscribed
+    ([ResidualGraphUpdater(.., subscribe=False)], before
+    [dispatcher.subscribe(updater)]): the constructor still created-or-got and
+    subscribed the [IsCompletedObserver] (and what that one depends on), so
+    the dependencies are notified exactly as in [rgu_update]; the updater's
+    own [update] does not run and its graph stays as it is. A later
+    [dispatcher.subscribe(updater)] appends it at the end of the subscriber
+    list — after its dependencies, the list of the [subscribe=True] case —
+    and from then on a round is [rgu_update]. Same argument list as
+    [rgu_update], so that it can be handed to [dispatch] in the same way. *)
+Definition rgu_update_detached (I : instance) (fs : list fname) (d : dstate) (x : sop) (u : rgu) : rgu :=
+  mkrgu (map (dep_update I x) (u_deps u)) (u_ic u) (u_rm_m u) (u_rm_j u) (u_init u) (u_graph u).
+
 (** ** reset *)
 
 (** [reset] of the subscriber at position [i] ([initialize_features] again):
